@@ -670,8 +670,24 @@ pub fn run(seed: u64, n: usize, out: &mut dyn Write) {
                                 && (1..n).all(|i| ids.contains(&i))
                                 && ids.windows(2).all(|w| cnt[w[0]] > cnt[w[1]] || (cnt[w[0]] == cnt[w[1]] && w[0] < w[1]))
                         };
+                        // ... and the frequency written next to an id is its count over the sum of all counts
+                        let freq_ok = |cnt: &Vec<usize>, name: &str| -> bool {
+                            let sum: usize = cnt.iter().sum();
+                            String::from_utf8_lossy(&read(&env, name)).lines().all(|l| {
+                                let mut c = l.split('\t');
+                                match (c.next().and_then(|x| x.parse::<usize>().ok()), c.next().and_then(|x| x.parse::<f64>().ok())) {
+                                    (Some(id), Some(p)) if id < cnt.len() => {
+                                        let want = cnt[id] as f64 / sum as f64;
+                                        (p.is_nan() && want.is_nan()) || p == want
+                                    }
+                                    _ => false,
+                                }
+                            })
+                        };
                         if let Some((cl, cr)) = &counts {
-                            if !sorted_ok(cl, &file_ids("reordered.lmap")) || !sorted_ok(cr, &file_ids("reordered.rmap")) {
+                            if !sorted_ok(cl, &file_ids("reordered.lmap")) || !sorted_ok(cr, &file_ids("reordered.rmap"))
+                                || !freq_ok(cl, "reordered.lmap") || !freq_ok(cr, "reordered.rmap")
+                            {
                                 diffs.push("reorder-order-not-by-frequency".to_string());
                             }
                         }
